@@ -78,3 +78,6 @@ func vfHarnessC14Iff(n int, selfLoops bool, danglingMode int) {
 func VerifHarness_C14_iff3()  { vfHarnessC14Iff(3, true, 1) }
 func VerifHarness_C14_iff4()  { vfHarnessC14Iff(4, true, 0) }
 func VerifHarness_C14_iff4d() { vfHarnessC14Iff(4, false, 1) }
+
+// all 2^20 self-loop-free edge sets on 5 steps (thorough tier)
+func VerifHarness_C14_iff5() { vfHarnessC14Iff(5, false, 0) }
